@@ -176,7 +176,10 @@ namespace
             return {};
         }
         auto position = right.data<d_array>();
-        position->check_type(runtime, t_scalar(), 3);
+        if (!position->check_type(runtime, t_scalar(), 3))
+        {
+            return {};
+        }
         auto inner = veh->value();
         inner->position({
             position->at(0).data<d_scalar, float>(),
@@ -220,6 +223,11 @@ namespace
     }
     value domove_object_array(runtime& runtime, value::cref left, value::cref right)
     {
+        if (left.data<d_object>()->is_null())
+        {
+            runtime.__logmsg(err::ExpectedNonNullValueWeak(runtime.context_active().current_frame().diag_info_from_position()));
+            return {};
+        }
         auto obj = left.data<d_object>()->value();
         if (obj->is_vehicle())
         {
